@@ -144,6 +144,8 @@ def run(prog, chk):
             ok = not loops and bool(node) and all(gg.must_precede(node, x) for x in execs)
             chk.ob('R18.4', f, n.get('ln', f.ln), ok, 'analyse() runs once, outside any loop, before every execute()', key='analyse-once')
 
+    chk.rule('R18.6', 'the per-shot logging switch decides nothing but the log')
+    _log_switch_rule(prog, chk, R)
     # ---- R18.5 -----------------------------------------------------------------------------
     for rn in (evname, 'bloch::runtime::RuntimeClass', 'bloch::runtime::Object', 'bloch::runtime::QasmSimulator'):
         rec = prog.facts.records.get(rn)
@@ -152,6 +154,41 @@ def run(prog, chk):
         st = [f['name'] for f in rec['fields'] if f['static'] and not f.get('const')]
         chk.ob('R18.5', rn, '%s:%s' % (prog.rel(rec['file']), rec['ln']), not st, '%s has mutable static data members: %s' % (rn.split('::')[-1], st), key='no-statics:' + rn.split('::')[-1],
                nontrivial=False)
+
+
+def _log_switch_rule(prog, chk, R):
+    """R18.6 — the shots of one run differ in exactly one constructor argument: whether the simulator logs OpenQASM (only the last
+    shot does).  A shot equals a fresh run only if that switch decides nothing but the log: in the simulator, every write that is
+    guarded by the switch goes to the log itself."""
+    flag, ops = R.sim_log_flag, R.sim_ops_field
+    n = 0
+    for f in R.sim_methods():
+        if not f.body:
+            continue
+        g = prog.cfg(f)
+        for node in g.nodes:
+            if node.kind not in ('assign', 'incdec', 'call') or not SX.is_node(node.e):
+                continue
+            w = SX.write_target(node.e)
+            tgt = SX.strip(w[0]) if w else (SX.strip(node.e.get('obj')) if node.e.get('k') == 'mcall' and not node.e.get('constm', True) else None)
+            if tgt is None:
+                continue
+            root = tgt
+            while SX.is_node(root) and root.get('k') in ('index', 'member') and not SX.is_this_member(root):
+                root = SX.strip(root.get('base'))
+            if not SX.is_this_member(root):
+                continue
+            guarded = [ce for ce, pol, ed in g.guards(node) if any(x.get('k') == 'member' and x.get('name') == flag and SX.is_this_member(x) for x in SX.walk(ce))]
+            if not guarded:
+                continue
+            n += 1
+            chk.ob('R18.6', f, node.ln or f.ln, root['name'] == ops,
+                   'a write to %s in %s is conditional on the logging switch %s: only the last shot of a run logs, so the other shots then differ from a fresh run' % (
+                       root['name'], f.short, flag), key='log-switch:%s:%s' % (f.short, root['name']))
+    chk.count('simulator writes under the logging switch', n, 5)
+    # the switch is fixed at construction: nothing but constructors writes it
+    wr = sorted({f.short for f in R.sim_methods() if f.body for x in SX.walk(f.body) for w in [SX.write_target(x)] if w and SX.is_this_member(SX.strip(w[0]), flag)})
+    chk.ob('R18.6', R.sim['name'], 'qasm_simulator', not wr, 'the logging switch is set by the constructor only (also written in: %s)' % wr, key='log-switch:const', nontrivial=False)
 
 
 def _fresh_locals(f):
